@@ -106,7 +106,9 @@ def annotate_citations(
                 start, end, span_text = maybe_balance_style_tags(
                     start, end, plain_text
                 )
-                if not is_balanced_html(span_text):
+                if start < last_end or not is_balanced_html(span_text):
+                    # (a repaired span that reaches back into the previous
+                    # annotation cannot be emitted without repeating text)
                     logger.warning(
                         "Citation was not annotated due to unbalanced tags %s",
                         original_span_text,
